@@ -53,9 +53,27 @@ def gen(tier, rng, scale):
         for p in range(nproc):
             if not any(cr[1] == p for cr in creators):
                 creators[rng.below(n)][1] = p
-        style = rng.below(8)
+        style = rng.below(9)
         decisions = []
-        if style == 7:
+        if style == 8:
+            # time passes: creator 1 fails (its write function fails, or it is killed mid-way) and leaves its lock file behind; DAYS later (the files in
+            # the directory get modification times two days back) creator 2 takes the lock and is somewhere in its write when creator 3 arrives
+            n = max(n, 3)
+            while len(creators) < n:
+                creators.append([len(creators) + 1, rng.below(nproc), rng.choice([1, 2, 3]), 1])
+            creators[0][3] = 0
+            creators[1][3] = 1
+            creators[1][2] = rng.choice([2, 3])
+            k1 = 5 + creators[0][2]
+            decisions += [[2, 1]] * (k1 if rng.chance(2, 3) else rng.range(2, k1))
+            if rng.chance(1, 3):
+                decisions.append([1, creators[0][1]])
+            decisions.append([5, 0])
+            decisions += [[2, 2]] * rng.range(3, 5 + creators[1][2])
+            decisions += [[2, 3]] * rng.range(1, 8)
+            for _ in range(rng.range(0, 20)):
+                decisions.append([0, rng.below(64)] if rng.chance(9, 10) else [5, 0])
+        elif style == 7:
             # a WAITER is cancelled: creator 1 takes the lock and is somewhere in its write, creator 2 arrives, finds the lock held and waits; its future
             # is dropped while it waits (or a little later); everybody else carries on
             decisions += [[2, 1]] * (4 + rng.range(0, creators[0][2]))
@@ -349,6 +367,16 @@ def run_schedule(binp, case, d):
             if kind == 4:
                 release(k)
                 continue
+            if kind == 5:
+                # two days pass: nothing happens except that every file in the directory is that much older (no event in the model: the
+                # protocol's guarantees do not depend on how long ago anything was written)
+                old = time.time() - 2 * 86400
+                for fn in os.listdir(d):
+                    try:
+                        os.utime(os.path.join(d, fn), (old, old))
+                    except OSError:
+                        pass
+                continue
             if not rs:
                 if any(s == "blocked" for s in state.values()):
                     drain(0.3)
@@ -542,7 +570,7 @@ def known(case):
 
 
 def describe(case):
-    d = {"creators [id, process, chunks, write ok(, busy blocking pool)]": case["creators"], "decision kinds": "0 run the k-th ready creator one step, 1 kill a process, 2 run creator k one step, 3 cancel creator k, 4 release creator k's blocking pool", "decisions": case["items"][:80]}
+    d = {"creators [id, process, chunks, write ok(, busy blocking pool)]": case["creators"], "decision kinds": "0 run the k-th ready creator one step, 1 kill a process, 2 run creator k one step, 3 cancel creator k, 4 release creator k's blocking pool, 5 two days pass (every file in the directory gets that much older)", "decisions": case["items"][:80]}
     t = case.get("_trace")
     if isinstance(t, list):
         d["trace"] = [[ev, {"dest": o[0], "part": o[1], "lock": o[2]}] for ev, o in t[:200]]
